@@ -23,7 +23,9 @@ RULE = (
     "op programs (<=40 ops) in one Session over 4 committed rows: get (populate_existing, identity_token), select (all / filtered / by pk list; populate_existing, "
     "yield_per, identity_token execution option), merge of a transient or detached copy (load True/False), merge(load=True) of an object loaded under a non-default identity token and then expunged (identity absent / present in the session), refresh, expire (whole object / one attribute), expire_all, expunge, add back, "
     "primary key change + flush, delete + flush, re-insert of a deleted pk, delete + insert of one pk in a single flush, modify without flush, commit, dropping the harness' strong reference (+gc). "
-    "Non-trivial: a pk switch, an expunge/re-add, or a merge of a copy of an identity already present happens before a later query returns that row; "
+    "Non-trivial: a pk switch, an expunge/re-add, or a merge of a copy of an identity already present happens before a later query returns that row. Sub-check graph: a parent with 0-3 children (joined-eager, selectin and lazy relationships) loaded under an identity token, "
+    "brought into a second Session by load / merge(load=True) / merge(load=False), then reached again through refresh, expire + access, get / select with the token and the "
+    "relationships: one object per (class, pk, token), and members (re)loaded by the parent's own refresh statement carry the parent's token; "
     "distinct = canonical JSON of the program"
 )
 ASSUMPTIONS = [
@@ -593,6 +595,135 @@ def _programs(draw):
             ops.append(list(o))
     return {"ops": ops[:44]}
 
+# --------------------------------------------------------------------------- object graphs under identity tokens
+_G = {}
+
+
+def _graph_family():
+    if not _G:
+        from sqlalchemy import Column, ForeignKey, Integer
+        from sqlalchemy.orm import declarative_base, relationship
+
+        Base = declarative_base()
+
+        class GParent(Base):
+            __tablename__ = "gparent"
+            id = Column(Integer, primary_key=True)
+            x = Column(Integer)
+            kids_joined = relationship("GChild", lazy="joined", order_by="GChild.id", viewonly=True)
+            kids_selectin = relationship("GChild", lazy="selectin", order_by="GChild.id", viewonly=True)
+            kids = relationship("GChild", lazy="select", order_by="GChild.id", back_populates="parent")
+
+        class GChild(Base):
+            __tablename__ = "gchild"
+            id = Column(Integer, primary_key=True)
+            parent_id = Column(ForeignKey("gparent.id"))
+            y = Column(Integer)
+            parent = relationship(GParent, back_populates="kids")
+
+        _G.update(Base=Base, P=GParent, C=GChild)
+    return _G
+
+
+def check_graph(case, ctx):
+    """A parent with 0-3 children is loaded under an identity token, carried into a second Session (merge with load True / False, or
+    loaded there directly), and then reached again through several paths (refresh, expire + access, eager and lazy relationship loads,
+    get and select with the token).  Every path must hand out the session's one object per (class, primary key, token)."""
+    from sqlalchemy import inspect, select
+    from sqlalchemy.orm import Session
+
+    from vf.sautil import mem_engine
+
+    fam = _graph_family()
+    P, C = fam["P"], fam["C"]
+    tok = case["token"]
+    n = case["n_kids"]
+    eng = mem_engine()
+    fam["Base"].metadata.create_all(eng)
+    with eng.begin() as conn:
+        conn.exec_driver_sql("INSERT INTO gparent (id, x) VALUES (1, 10)")
+        for i in range(n):
+            conn.exec_driver_sql("INSERT INTO gchild (id, parent_id, y) VALUES (?, 1, ?)", (i + 1, i))
+    opts = {"identity_token": tok} if tok is not None else {}
+    s1 = Session(eng)
+    s2 = Session(eng)
+    classes = {f"token={tok}", f"kids={n}", "enter=" + case["enter"]}
+    try:
+        if case["enter"] == "load":
+            p = s2.scalars(select(P).execution_options(**opts)).unique().one()
+        else:
+            src = s1.scalars(select(P).execution_options(**opts)).unique().one()
+            _ = [k.y for k in src.kids]
+            s1.close()  # detached graph: parent, kids (cascade merge), kids_joined / kids_selectin (viewonly: not merged)
+            p = s2.merge(src, load=case["enter"] == "merge_load")
+        held = {}  # (cls name, pk) -> the first object seen for it
+
+        def see(obj, via, step, same_token=False):
+            # (a relationship loaded by a statement of its own - lazy or selectin - carries no token in a plain Session: only objects
+            # that come out of a statement executed with the token, or of the refresh of an object keyed with it, must carry it)
+            key = inspect(obj).key
+            if key is None or (same_token and key[2] != tok):
+                raise Violation("C34/graph/identity-token", f"step {step} via {via}: object {obj!r} has identity key {key!r}, expected token {tok!r}")
+            k = (type(obj).__name__, key[1], key[2])
+            if k in held and held[k] is not obj:
+                raise Violation("C34/graph/second-object-for-identity", f"step {step} via {via}: {k} under token {tok!r} reached as a second object "
+                                f"(identity map holds {'the first' if s2.identity_map.get(key) is held[k] else 'the second' if s2.identity_map.get(key) is obj else 'neither'})")
+            held.setdefault(k, obj)
+            if s2.identity_map.get(key) is not obj:
+                raise Violation("C34/graph/not-the-identity-map-object", f"step {step} via {via}: {k} is not the object the identity map holds for {key!r}")
+
+        see(p, "enter", -1, True)
+        for step, op in enumerate(case["ops"]):
+            classes.add(op)
+            if op == "refresh":
+                s2.refresh(p)
+            elif op == "refresh_attrs":
+                s2.refresh(p, ["x", "kids_joined"])
+            elif op == "expire_access":
+                s2.expire(p)
+                _ = p.x
+            elif op == "expire_all":
+                s2.expire_all()
+            elif op == "get_kids":
+                for i in range(n):
+                    see(s2.get(C, i + 1, identity_token=tok), "get(child)", step, True)
+            elif op == "get_parent":
+                see(s2.get(P, 1, identity_token=tok), "get(parent)", step, True)
+            elif op == "select_kids":
+                for k in s2.scalars(select(C).order_by(C.id).execution_options(**opts)):
+                    see(k, "select(child)", step, True)
+            elif op == "select_parent_pe":
+                see(s2.scalars(select(P).execution_options(populate_existing=True, **opts)).unique().one(), "select(parent, populate_existing)", step, True)
+            if op in ("refresh", "refresh_attrs", "expire_access", "select_parent_pe") and "kids_joined" in inspect(p).dict:
+                # the joined-eager collection was (re)loaded by the very statement that refreshed the parent: its members are looked up
+                # under the parent's token, i.e. they are the objects get(child, identity_token=token) hands out
+                for k in inspect(p).dict["kids_joined"]:
+                    see(k, "joined eager load during " + op, step, True)
+            for attr in case["read"]:
+                for k in getattr(p, attr):
+                    see(k, f"parent.{attr}", step)
+                    if k.parent is not None:
+                        see(k.parent, f"parent.{attr}[].parent", step)
+        ctx.note(case, tok is not None and n > 0 and case["enter"] != "load" and any(o.startswith(("refresh", "expire")) for o in case["ops"]), classes=sorted(classes))
+    finally:
+        s1.close()
+        s2.close()
+        eng.dispose()
+
+
+@st.composite
+def _graph_programs(draw):
+    return {
+        "token": draw(st.sampled_from([None, "t1", "t1", "t2"])),
+        "n_kids": draw(st.integers(0, 3)),
+        "enter": draw(st.sampled_from(["load", "merge_load", "merge_noload", "merge_noload"])),
+        "ops": draw(st.lists(st.sampled_from(["refresh", "refresh", "refresh_attrs", "expire_access", "expire_all", "get_kids", "get_parent", "select_kids", "select_parent_pe"]), min_size=1, max_size=6)),
+        "read": draw(st.lists(st.sampled_from(["kids", "kids_joined", "kids_selectin"]), min_size=1, max_size=3, unique=True)),
+    }
+
 
 def subs(tier):
-    return [Generated("identity", check, strategy=_programs(), quick=2000, thorough=50000)]
+    return [
+        Generated("identity", check, strategy=_programs(), quick=2000, thorough=50000),
+        Generated("graph", check_graph, strategy=_graph_programs(), quick=800, thorough=20000),
+    ]
